@@ -107,7 +107,7 @@ func Random(r *hx.Rng, opt Options) Desc {
 	if len(chosen) == 0 {
 		nv = 0
 	}
-	if nv == 0 && r.Chance(2, 3) {
+	if nv == 0 && r.Chance(2, 3) && !opt.NeedPos {
 		chosen = nil // no attributes at all; otherwise keys with empty arrays
 	}
 	// duplicated vertex values: draw from a small pool of rows per attribute
